@@ -26,10 +26,9 @@ Theorem C17_predecessors_nodup :
 Proof. exact predecessors_nodup. Qed.
 Print Assumptions C17_predecessors_nodup.
 
-(* predecessors: exact characterisation of what the enumeration contains *)
-Theorem C17_predecessors_char :
+(* predecessors = exactly the nodes of that type that can reach the node, also when times tie *)
+Theorem C17_predecessors_exact :
   forall nw, net_wf_b nw = true -> forall ty n m, In ty (type_ids nw) ->
-  (In m (predecessors nw ty n) <->
-   In m (type_nodes nw ty) /\ can_reach nw m n = true /\ dt_ltb (end_time nw m) (start_time nw n) = true).
-Proof. exact predecessors_char. Qed.
-Print Assumptions C17_predecessors_char.
+  (In m (predecessors nw ty n) <-> In m (type_nodes nw ty) /\ can_reach nw m n = true).
+Proof. exact predecessors_exact. Qed.
+Print Assumptions C17_predecessors_exact.
